@@ -75,7 +75,7 @@ type Lemma struct {
 	Expect string
 }
 
-var clauseRe = regexp.MustCompile(`^(requires|ensures|invariant|assert)(\[[A-Z0-9, ]+\])?\s+(?:([A-Za-z0-9_\-]+):\s+)?(.*)$`)
+var clauseRe = regexp.MustCompile(`^(requires|ensures|defines|invariant|assert)(\[[A-Z0-9, ]+\])?\s+(?:([A-Za-z0-9_\-]+):\s+)?(.*)$`)
 
 func shortFuncName(fn *ssa.Function) string {
 	// "(Keeper).Method", "(*T).Method", "Func", "Func$1", "(Keeper).Method$1"
@@ -325,7 +325,7 @@ func (db *SpecDB) loadFile(pkgPath, file string) error {
 					c.Name = fmt.Sprintf("requires#%d", len(cur.Requires)+1)
 				}
 				cur.Requires = append(cur.Requires, c)
-			case "ensures":
+			case "ensures", "defines":
 				if c.Name == "" {
 					c.Name = fmt.Sprintf("ensures#%d", len(cur.Ensures)+1)
 				}
